@@ -40,8 +40,12 @@ impl<K> OrphanStats<K> {
         let mut result = RecoveryResult::default();
         for hash in &self.orphaned_blobs {
             let blob_path = self.cas_inner.paths.cas_file_path(hash);
+            #[cfg(feature = "verif-hooks")]
+            crate::verif::point("orphan.before_intents");
             {
                 let intents = self.cas_inner.index.pending_intents.lock();
+                #[cfg(feature = "verif-hooks")]
+                crate::verif::point("orphan.before_state");
                 let state = self.cas_inner.index.read_state();
                 let still_referenced = state.contains_blob_hash(hash);
                 let has_intent = intents.is_protected(hash);
@@ -49,9 +53,16 @@ impl<K> OrphanStats<K> {
 
                 if still_referenced || has_intent {
                     result.orphans_skipped += 1;
+                    #[cfg(feature = "verif-hooks")]
+                    {
+                        drop(intents);
+                        crate::verif::point("orphan.after_unlock");
+                    }
                     continue;
                 }
 
+                #[cfg(feature = "verif-hooks")]
+                crate::verif::point("orphan.before_unlink");
                 match std::fs::remove_file(&blob_path) {
                     Ok(_) => {
                         result.orphans_deleted += 1;
@@ -69,6 +80,8 @@ impl<K> OrphanStats<K> {
                     }
                 }
             }
+            #[cfg(feature = "verif-hooks")]
+            crate::verif::point("orphan.after_unlock");
         }
 
         // Remove invalid files
